@@ -171,11 +171,16 @@ def impl_run(item):
     events = []
     index = {}
     orig = gf.get_formatter
+    orig_method = gf.Formatter.get_formatter
     max_events = item.get('max_events', 400)
+    current = {'haskids': False}
 
-    def facts(node_type):
-        mro = [c.__name__ for c in node_type.__mro__]
-        return mro
+    def method(self, it_):
+        current['haskids'] = isinstance(it_, gt.TreeNode) and len(it_.children()) > 0
+        try:
+            return orig_method(self, it_)
+        finally:
+            current['haskids'] = False
 
     def get_formatter(node_type, base_formatter=None):
         ret = orig(node_type, base_formatter)
@@ -183,23 +188,49 @@ def impl_run(item):
         if ret is None:
             res = None
         else:
-            owner = None
+            # name the returned bound method by the attribute it is reachable under (aliases such as
+            # `print_MappingNode = print_MultiSetNode` and functions installed with setattr keep another __name__):
+            # the first print_<class of the item's MRO> attribute of the instance that IS the returned method
+            name, owner = ret.__name__, None
+            for k in node_type.__mro__:
+                cand = 'print_' + k.__name__
+                if getattr(ret.__self__, cand, None) == ret:
+                    name = cand
+                    break
             for k in type(ret.__self__).__mro__:
-                if ret.__name__ in k.__dict__:
+                if name in k.__dict__:
                     owner = k.__name__
                     break
-            res = [_inst_path(ret.__self__), ret.__name__, owner]
-        ev = [base, node_type.__name__, res]
+            res = [_inst_path(ret.__self__), name, owner]
+        ev = [base, node_type.__name__, res, current['haskids']]
         key = json.dumps(ev)
         if key not in index:
             index[key] = len(events)
-            # facts about the class, recorded once per distinct event
-            is_edit = not issubclass(node_type, gt.TreeNode)
-            events.append({'base': base, 'cls': node_type.__name__, 'mro': facts(node_type), 'res': res,
-                           'is_edit': is_edit, 'n': 0})
+            events.append({'base': base, 'cls': node_type.__name__, 'mro': [c.__name__ for c in node_type.__mro__],
+                           'res': res, 'is_edit': not issubclass(node_type, gt.TreeNode),
+                           'haskids': current['haskids'], 'n': 0})
         events[index[key]]['n'] += 1
         return ret
     gf.get_formatter = get_formatter
+    gf.Formatter.get_formatter = method
+    roots, pairs = [], set()
+    wrapped = []
+
+    def wrap_loader(ft):
+        orig_load = ft.build_tree_handling_errors
+
+        def load(path, options=None):
+            t = orig_load(path, options)
+            if isinstance(t, gt.TreeNode):
+                roots.append(type(t).__name__)
+                for n in t.dfs():
+                    for ch in n.children():
+                        pairs.add((type(n).__name__, type(ch).__name__))
+            return t
+        ft.build_tree_handling_errors = load
+        wrapped.append(ft)
+    for ft in {id(f): f for f in list(graphtage.FILETYPES_BY_MIME.values()) + list(graphtage.FILETYPES_BY_TYPENAME.values())}.values():
+        wrap_loader(ft)
     # the failing item: remember the last item handed to a resolved print method's dispatch
     out, err = NoClose(), NoClose()
     so, se = sys.stdout, sys.stderr
@@ -209,16 +240,21 @@ def impl_run(item):
         try:
             res['status'] = gm.main(argv_of(item, pa, pb))
         except SystemExit as e:
-            res['exc'] = {'cls': 'SystemExit', 'msg': str(e.code), 'where': [], 'last': None}
+            res['exc'] = {'cls': 'SystemExit', 'msg': str(e.code), 'where': [], 'chain': []}
         except BaseException as e:  # noqa
             tb = traceback.extract_tb(e.__traceback__)
             where = [f'{os.path.basename(fr.filename)}:{fr.name}' for fr in tb]
             # innermost frames inside graphtage, most recent last
-            res['exc'] = {'cls': type(e).__name__, 'msg': str(e)[:240], 'where': where[-8:],
+            res['exc'] = {'cls': type(e).__name__, 'msg': str(e)[:2000], 'where': where[-8:],
                           'chain': [fr.name for fr in tb if fr.name.startswith('print') or fr.name.startswith('_json_print')][-6:]}
     finally:
         sys.stdout, sys.stderr = so, se
         gf.get_formatter = orig
+        gf.Formatter.get_formatter = orig_method
+        for ft in wrapped:
+            del ft.build_tree_handling_errors
+    res['roots'] = sorted(set(roots))
+    res['pairs'] = sorted(pairs)
     res['stdout_len'] = len(out.getvalue())
     res['stderr'] = err.getvalue()[-300:]
     res['events'] = events[:max_events]
@@ -232,3 +268,288 @@ def impl_run(item):
             json.dump(res, f)
         raise RuntimeError('C13-restart')
     return res
+
+
+# ------------------------------------------------------------------ serialisation
+
+HEADER = ('From Coq Require Import String List Bool ZArith.\nRequire Import GT.PyBase GT.DispatchSpec.\n'
+          'Import ListNotations.\nOpen Scope string_scope.\n')
+MODEL_HEADER = 'Require Import GT.DispatchModel GTgen.DispatchGen.\n'
+THEOREMS = ['C13_cover', 'C13_dispatch_total', 'C13_partial', 'C13_edits_mode', 'C13_refuted']
+KF_CLASSES = ['kf_reparent', 'kf_plist_null']
+MODE_CTOR = {'diff': 'MDiff', 'e': 'MEdits', 'd': 'MDigest'}
+STYLE_CTOR = {'plain': 'SPlain', 'color': 'SColor', 'html': 'SHtml'}
+
+
+def safe(s):
+    return ''.join(c if 32 <= ord(c) <= 126 else '?' for c in s)
+
+
+def cstr(s):
+    return '"' + safe(s).replace('"', '""') + '"'
+
+
+def clist(xs, f=cstr):
+    return '[' + '; '.join(f(x) for x in xs) + ']'
+
+
+def gb(b):
+    return 'true' if b else 'false'
+
+
+def event_term(e):
+    if e['res'] is None:
+        res = 'None'
+    else:
+        res = f'(Some ({clist(e["res"][0])}, {cstr(e["res"][1])}, {cstr(e["res"][2] or "")}))'
+    return (f'(Build_event {clist(e["base"])} {cstr(e["cls"])} {clist(e["mro"])} {gb(e["is_edit"])} '
+            f'{gb(e["haskids"])} {res})')
+
+
+def case_term(c, r):
+    if r['exc'] is None:
+        out = f'(Completed ({int(r["status"])})%Z)'
+    else:
+        out = f'(Raised {cstr(r["exc"]["cls"])} {cstr(r["exc"]["msg"][:1500])})'
+    pairs = clist(r['pairs'], lambda p: f'({cstr(p[0])}, {cstr(p[1])})')
+    return (f'(Build_c13_case {cstr(c["it"])} {cstr(c["of"])} {MODE_CTOR[c["mode"]]} {STYLE_CTOR[c["style"]]} '
+            f'{gb(c["j"])} {gb(c["diff"])} {clist(r["roots"])} {pairs} {clist(r["events"], event_term)} {out})')
+
+
+# ------------------------------------------------------------------ product, driving, evaluation
+
+def product(tier, seed):
+    """The configuration product on the fixed documents. quick: everything on the first document of each type;
+    thorough: everything on every document."""
+    docs = documents()
+    items = []
+    for it in TYPES:
+        sets = docs[it][:1] if tier == 'quick' else docs[it]
+        for dn, a, b in sets:
+            for of in TYPES:
+                for mode in MODES:
+                    for style in STYLES:
+                        for j in (False, True):
+                            for diff in (False, True):
+                                items.append({'it': it, 'of': of, 'mode': mode, 'style': style, 'j': j, 'diff': diff,
+                                              'doc': dn, 'a': a.hex(), 'b': (b if diff else a).hex()})
+    rng = random.Random(seed)
+    if tier == 'quick':
+        # a rotating slice: every (input, format, mode, equal/different) keeps 2 of its 6 (style, -j) variants
+        by = {}
+        for c in items:
+            by.setdefault((c['it'], c['of'], c['mode'], c['diff'], c['doc']), []).append(c)
+        items = []
+        for k in sorted(by):
+            rng.shuffle(by[k])
+            items += by[k][:2]
+    rng.shuffle(items)     # spread slow and failing runs over the workers
+    return items
+
+
+def drive(wd, cases, tag):
+    items = [dict(c, dir=wd.file('impl'), name=f'c13_{tag}_{i}') for i, c in enumerate(cases)]
+    res = common.run_impl('pC13', 'impl_run', items, extra_env={'PYTHONUTF8': '1'})
+    out = []
+    for it_, r in zip(items, res):
+        if r is not None and r.get('exc') == 'RuntimeError' and r.get('msg') == 'C13-restart':
+            side = os.path.join(it_['dir'], it_['name'] + '.result.json')
+            try:
+                r = {'ok': json.load(open(side))}
+                os.unlink(side)
+            except (OSError, ValueError):
+                r = {'exc': 'lost-result', 'msg': side}
+        out.append(r)
+    return out
+
+
+def evaluate(wd, keep, st, tag):
+    """keep: list of (case, record). Groups by (it, of, mode): the reachable set of the group's configuration is
+    computed once per group inside Coq.  Returns {eval name: set of indices} and an error string."""
+    import threading
+    groups = {}
+    for i, (c, r) in enumerate(keep):
+        groups.setdefault((c['it'], c['of'], c['mode']), []).append(i)
+    evals = ['holds']
+    if st['models_ok']:
+        evals += ['corr'] + KF_CLASSES
+    results = {e: set() for e in evals}
+    errors = []
+    lock = threading.Lock()
+    files = []
+    for gi, ((it, of, mode), idx) in enumerate(sorted(groups.items())):
+        for ci in range(0, len(idx), 150):
+            chunk = idx[ci:ci + 150]
+            body = [HEADER]
+            if st['models_ok']:
+                body.append(MODEL_HEADER)
+                body.append(f'Definition S := Eval vm_compute in (reach tables (grammar tables {cstr(it)}) '
+                            f'(root_class tables {cstr(of)}) {MODE_CTOR[mode]}).')
+            body.append('Definition cases := [')
+            body.append(';\n'.join(f'({i}%nat, {case_term(*keep[i])})' for i in chunk))
+            body.append('].')
+            body.append('Eval vm_compute in (bad_cases holds_C13 cases).')
+            if st['models_ok']:
+                body.append('Eval vm_compute in (bad_cases (corr_C13 tables S) cases).')
+                for k in KF_CLASSES:
+                    body.append(f'Eval vm_compute in (bad_cases (fun c => negb ({k} tables c)) cases).')
+            path = wd.file(f'{tag}_{gi}_{ci}.v')
+            with open(path, 'w') as f:
+                f.write('\n'.join(body) + '\n')
+            files.append(path)
+    sem = threading.Semaphore(common.NPROC)
+
+    def run(path):
+        with sem:
+            rc, out, err = common.coqc_file(path, 600)
+        with lock:
+            if rc != 0:
+                errors.append(f'{os.path.basename(path)}: rc={rc} {err[-600:]}')
+                return
+            blocks = common.eval_blocks(out)
+            if len(blocks) != len(evals):
+                errors.append(f'{os.path.basename(path)}: expected {len(evals)} blocks, got {len(blocks)}')
+                return
+            for e, b in zip(evals, blocks):
+                results[e] |= set(common.parse_nat_list(b))
+    ths = [threading.Thread(target=run, args=(p,)) for p in files]
+    for t in ths:
+        t.start()
+    for t in ths:
+        t.join()
+    return results, (errors[0] if errors else None)
+
+
+def open_findings():
+    listed = common.known_findings(PROP)
+    fs = [f for f in listed if f.get('status') == 'open']
+    # entries proposed in corpus/C13.known.json stand in for ids not yet merged into known_findings.json
+    p = os.path.join(common.VERIF, 'corpus', 'C13.known.json')
+    if os.path.exists(p):
+        have = {f['id'] for f in listed}
+        fs += [f for f in json.load(open(p))['findings']
+               if f['property'] == PROP and f.get('status') == 'open' and f['id'] not in have]
+    return [f for f in fs if f.get('class') in KF_CLASSES]
+
+
+def replay_obj(c, r, kind):
+    docs = {'a': bytes.fromhex(c['a']).decode('utf-8', 'replace'), 'b': bytes.fromhex(c['b']).decode('utf-8', 'replace')}
+    return {'kind': kind, 'argv': argv_of(c, f'a.{EXT[c["it"]]}', f'b.{EXT[c["it"]]}')[1:], 'files': docs,
+            'case': {k: c[k] for k in ('it', 'of', 'mode', 'style', 'j', 'diff', 'a', 'b')},
+            'observed': None if r is None else {'status': r.get('status'), 'exc': r.get('exc'),
+                                                'events': r.get('events', [])[-6:]},
+            'replay': './check C13 --replay <this file>'}
+
+
+def run_product(run, wd, cases, st, kfs, tag, printed, stats):
+    """Drive + evaluate + classify. Returns (number judged, corr-bad list of (case, record))."""
+    res = drive(wd, cases, tag)
+    keep = []
+    for c, r in zip(cases, res):
+        if r is None or 'ok' not in r:
+            run.violation(dict(replay_obj(c, None, 'internal-error'), result=r))
+            continue
+        keep.append((c, r['ok']))
+        run.count([c['it'], c['of'], c['mode'], c['style'], c['j'], c['diff'], c['a']], nontrivial=c['mode'] != 'e' or c['diff'])
+    ev, err = evaluate(wd, keep, st, tag)
+    if err:
+        run.violation({'kind': 'case-evaluation-failed', 'error': err}, no_input=True)
+        return len(keep), []
+    open_names = {f['class']: f for f in kfs}
+    n_viol = 0
+    for i in sorted(ev['holds']):
+        c, r = keep[i]
+        key = (c['it'], c['of'], c['mode'])
+        stats['failing'].setdefault('/'.join(key), 0)
+        stats['failing']['/'.join(key)] += 1
+        hit = [k for k in KF_CLASSES if st["models_ok"] and i in ev[k] and k in open_names]
+        if hit:
+            f = open_names[hit[0]]
+            printed.setdefault(f['id'], [f, 0])[1] += 1
+        elif n_viol < 5:
+            n_viol += 1
+            run.violation(replay_obj(c, r, 'render-raised'))
+    stats['events'] += sum(len(r['events']) for _, r in keep)
+    stats['runs'] += len(keep)
+    return len(keep), [keep[i] for i in sorted(ev.get('corr', []))]
+
+
+def check(tier, seed):
+    run = common.Run(PROP, tier, seed)
+    wd = common.Workdir(PROP)
+    try:
+        st = common.build(['theories/DispatchModel.vo', 'gen/DispatchGen.vo'], ['props/PropC13.vo'])
+        common.proof_evidence(run, wd, PROP, st, THEOREMS)
+        kfs = open_findings()
+        printed, stats = {}, {'failing': {}, 'events': 0, 'runs': 0}
+        corpus_path = os.path.join(common.VERIF, 'corpus', 'C13.jsonl')
+        corpus = [json.loads(l) for l in open(corpus_path) if l.strip()] if os.path.exists(corpus_path) else []
+        cases = corpus + product(tier, seed)
+        t0 = time.time()
+        n, bad_corr = run_product(run, wd, cases, st, kfs, 'cases', printed, stats)
+        run.cov['impl_and_eval_s'] = round(time.time() - t0, 1)
+        run.cov['traces_validated_against_impl'] = stats['events'] if st['models_ok'] else 0
+        broken = st['broken'] or (bad_corr and {'stage': 'correspondence', 'n': len(bad_corr)})
+        if broken and not run.violations:
+            # tie broken: search harder (every document of every type) for a failing input outside the known classes
+            if tier == 'quick':
+                more = [c for c in product('thorough', seed + 1) if c['doc'] != documents()[c['it']][0][0]]
+                run_product(run, wd, more, st, kfs, 'search', printed, stats)
+            if not run.violations:
+                if st['broken']:
+                    run.violation({'kind': 'tie-broken', 'what': st['broken']}, no_input=True)
+                else:
+                    c, r = bad_corr[0]
+                    run.violation(dict(replay_obj(c, r, 'correspondence-broken'),
+                                       what='corr_C13: the observed run disagrees with the model (resolution of an event, an '
+                                            'event outside the reachable set, a class outside the grammar, or completion '
+                                            'vs predicted failure)', n=len(bad_corr),
+                                       events=r.get('events')), no_input=True)
+        for fid, (f, k) in sorted(printed.items()):
+            run.known(f'id={fid} class={f["class"]} runs={k} {f["what"]}')
+        run.cov['rule'] = ('8 input types x 8 --format x {diff,-e,-d} x {--no-color,--color,--html} x {-j,none} x {equal,different '
+                           'documents} through graphtage.__main__.main() on fixed documents per type (quick: first document of each '
+                           'type, 2 of the 6 (style, -j) variants of every (input, format, mode, equal/different) = 768 runs; thorough: 5 documents = 11520 runs) + corpus; per run: completion vs the model, every '
+                           'dispatch event resolved as the model resolves it, inside the reachable set, tree classes inside the grammar')
+        run.cov['failing_runs_by_config'] = stats['failing']
+        run.cov['runs'] = stats['runs']
+        run.cov['dispatch_events_compared'] = stats['events']
+        run.cov['samples'] = [{k: c[k] for k in ('it', 'of', 'mode', 'style', 'j', 'diff')} for c in cases[:3]]
+        run.assumptions = ['summaries of print methods are extracted by ast (translator/gen_dispatch.py); the grammar of each input '
+                           'type, the list of node classes whose edits print sub-edits, the print-protocol itself and the '
+                           'print_parent_context entry points are hand-audited tables tied to source hashes (an edited source is a '
+                           'translator error)',
+                           'the diff engine (which edits are attached) is not modelled: the class-level analysis covers every edit '
+                           'the protocol can print; per run the recorded dispatch events are the oracle',
+                           'exceptions other than the three modelled ones (no printer, re-parenting guard, leaf emitter) are outside '
+                           'the model and are caught by the enumeration only',
+                           'printer styles (--color/--html/-j) do not enter the model; the runs establish that they do not matter']
+        return run.finish()
+    finally:
+        wd.cleanup()
+
+
+def replay(path):
+    obj = json.load(open(path))
+    if 'replay' in obj and isinstance(obj['replay'], dict) and 'case' in obj['replay']:
+        obj = obj['replay']                     # an entry of known_findings.json
+    if 'case' not in obj:
+        print(f'replay file holds no input (kind={obj.get("kind")}); re-running the quick check')
+        return check('quick', 1)
+    wd = common.Workdir(PROP + 'r')
+    try:
+        st = common.build(['theories/DispatchModel.vo', 'gen/DispatchGen.vo'], [])
+        c = dict(obj['case'], doc='replay')
+        r = drive(wd, [c], 'replay')[0]
+        print(json.dumps(r, indent=1)[:3000])
+        bad = True
+        if r is not None and 'ok' in r:
+            ev, err = evaluate(wd, [(c, r['ok'])], dict(st, models_ok=False), 'replay')
+            bad = bool(err) or bool(ev['holds'])
+        if bad:
+            print(f'VIOLATION property={PROP} replay={path}')
+            return 1
+        print('replay: property holds on this input')
+        return 0
+    finally:
+        wd.cleanup()
